@@ -80,7 +80,7 @@ def run_tlc(spec, cfg, workers=1, timeout=600, env=None, simulate=None, depth=No
                 fh.write(cfg_text)
         else:
             shutil.copy(os.path.join(SPECS, cfg), cfgpath)
-        cmd = ["java", "-XX:+UseParallelGC", "-Xmx" + heap]
+        cmd = ["java", "-XX:+UseParallelGC", "-Xmx" + heap, "-Xss256m"]
         if dfs:
             cmd.append("-Dtlc2.tool.queue.IStateQueue=StateDeque")
         cmd += ["-cp", JAR, "tlc2.TLC", "-workers", str(workers), "-metadir",
@@ -127,7 +127,7 @@ def run_tlc(spec, cfg, workers=1, timeout=600, env=None, simulate=None, depth=No
 
 
 def _tail(out, n=60):
-    lines = [l for l in out.splitlines() if not l.startswith('"EMIT')]
+    lines = [l for l in out.splitlines() if not l.startswith('"EMIT') and not l.startswith('   "')]
     return "\n".join(lines[-n:])
 
 
